@@ -77,3 +77,4 @@ import PyYetiVerif.Props.C10Dups
 #print axioms PyYetiVerif.C10.find_duplicates_length
 #print axioms PyYetiVerif.C10.find_duplicates_neg_tol
 #print axioms PyYetiVerif.C10.find_duplicates_example
+#print axioms PyYetiVerif.C10.find_duplicates_iff
